@@ -144,8 +144,28 @@ def body(case, res):
     run_case(case)
 
 
+def explicit_cases(scheme, tier):
+    """every boundary profile (N = 2^t with non-power-of-two lists, single lists of 2^t, lists on thresholds ...) under small
+    configurations with one fixed history: deterministic coverage of the padding paths of setup"""
+    hist = [["present", 0], ["absent", 0], ["again"], ["present", 1], ["reuse", 0], ["fresh_present", 0]]
+    profs = SP.BOUNDARY_PROFILES + [[3, 1], [5, 3], [3, 3, 2], [7, 1], [6, 6, 4], [5, 5, 5, 1], [9, 7], [11, 5], [13, 3], [3, 5]]
+    for ci in range(1 if tier == "quick" else 3):
+        cfg = SP.small_config(scheme, ci)
+        desc = S.DESCS[scheme]
+        for prof in profs:
+            if isinstance(desc, S.SSE2) and sum(prof) > 40:
+                continue
+            if sum(prof) > 140 and tier == "quick":
+                continue
+            if SP.lens_valid(desc, cfg, prof):
+                c = SP.explicit_case(scheme, cfg, prof, 17 + len(prof))
+                c["ops"] = hist
+                yield c
+
+
 def shards(tier):
     out = [{"kind": "hyp", "scheme": s, "i": 0} for s in S.SCHEMES]
+    out += [{"kind": "explicit", "scheme": s} for s in S.SCHEMES]
     if tier == "thorough":
         out += [{"kind": "hyp", "scheme": s, "i": 1} for s in S.SCHEMES]
     return out
@@ -153,9 +173,21 @@ def shards(tier):
 
 def run_shard(spec, seed, tier):
     res = ShardResult()
-    n, max_ops = (25, 15) if tier == "quick" else (200, 40)
-    if tier == "quick":
-        n = 40
+    if spec["kind"] == "explicit":
+        first = {}
+        for case in explicit_cases(spec["scheme"], tier):
+            try:
+                body(case, res)
+            except Violation as v:
+                if v.bucket not in first:
+                    first[v.bucket] = (case, str(v))
+        res.extra["explicit_bounds"] = "boundary length profiles x small configuration(s) x one fixed search history"
+        for bucket, (case, msg) in first.items():
+            res.add_violation(case, msg, bucket)
+        return res
+    n, max_ops = (100, 15) if tier == "quick" else (500, 40)
+    if spec["scheme"] == "CGKO06.SSE2":
+        n //= 2
     hyp.search(res, st_case(spec["scheme"], max_ops), body, seed, n)
     return res
 
